@@ -45,6 +45,7 @@ type c13Bam struct {
 	Cuts    []int    `json:"cuts"`     // logical positions where a new block starts (sorted, inside (0,total))
 	EmptyAt []int    `json:"empty_at"` // indexes into the block sequence before which an empty block is spliced
 	Marker  bool     `json:"marker"`
+	Trunc   int      `json:"trunc,omitempty"` // > 0: the uncompressed stream is cut to this many bytes (inside the records)
 
 	// derived
 	f        *c02File
@@ -184,6 +185,9 @@ func (b *c13Bam) build() error {
 		}
 		if err = b.parseFlat(); err != nil {
 			return err
+		}
+		if b.Trunc > 0 && b.Trunc < len(b.flat) {
+			b.flat = b.flat[:b.Trunc]
 		}
 	}
 	cuts := append([]int{}, b.Cuts...)
@@ -671,6 +675,128 @@ func runC13Bam(c *ctx, b *c13Bam, rd int, replayOps []string) (ops, out []string
 	return x.ops, x.out
 }
 
+// runC13Trunc: a BAM whose record stream is cut at b.Trunc.  The sequential pass returns the whole records before
+// the cut and then io.EOF only when the cut is a record boundary, io.ErrUnexpectedEOF otherwise (also when
+// exactly the size field is present: bam/reader.go newBuffer).  An iterator over [the cut record, record 0]
+// stops at the cut record with that error and does not go on to the next chunk.
+func runC13Trunc(c *ctx, b *c13Bam, rd int) (ops, out []string) {
+	r := c.res
+	x := &c13Run{c: c, b: b, rd: rd}
+	var err error
+	if !x.guarded("NewReader", func() { x.br, err = bam.NewReader(bytes.NewReader(b.f.raw), rd) }) {
+		return nil, nil
+	}
+	if err != nil {
+		x.fail("c13.newreader.error", err.Error())
+		return nil, nil
+	}
+	defer func() {
+		if !x.dead {
+			x.guarded("Close", func() { x.br.Close() })
+		}
+	}()
+	nFull, cut := 0, -1 // whole records; the record the cut falls into (-1: record boundary)
+	for i := range b.recStart {
+		if b.recEnd[i] <= b.Trunc {
+			nFull++
+		} else if b.recStart[i] < b.Trunc {
+			cut = i
+		}
+	}
+	class := "boundary"
+	expErr := io.EOF
+	if cut >= 0 {
+		expErr = io.ErrUnexpectedEOF
+		switch d := b.Trunc - b.recStart[cut]; {
+		case d < 4:
+			class = "inside-size-field"
+		case d == 4:
+			class = "size-field-only"
+		default:
+			class = "inside-body"
+		}
+	}
+	r.hist("trunc." + class)
+	idx, chunks, ferr, ok := x.readAll()
+	if !ok {
+		return x.ops, x.out
+	}
+	if !sameInts(idx, seqInts(0, nFull-1)) || ferr != expErr {
+		x.fail("c13.trunc.sequential."+class, fmt.Sprintf("stream cut at %d (%s): records %v then %v, expected 0..%d then %v", b.Trunc, class, idx, ferr, nFull-1, expErr))
+		return x.ops, x.out
+	}
+	// iterator over [chunk from the cut point's record to the end of the file, chunk of record 0]
+	p := b.Trunc
+	if cut >= 0 {
+		p = b.recStart[cut]
+	}
+	reps := b.f.offsetReps(p, false)
+	if len(reps) == 0 {
+		r.eval(fmt.Sprintf("trunc%d|%d", b.id, rd), true)
+		return x.ops, x.out
+	}
+	begin := reps[0]
+	if o, ok := b.f.offsetOf(p); ok {
+		begin = o
+	}
+	cl := []bgzf.Chunk{{Begin: begin, End: bgzf.Offset{File: b.f.length + 1000}}}
+	exp := []int{}
+	if nFull > 0 {
+		cl = append(cl, chunks[0])
+		if cut < 0 {
+			exp = []int{0}
+		}
+	}
+	var iter *bam.Iterator
+	if !x.guarded("NewIterator", func() { iter, err = bam.NewIterator(x.br, cl) }) {
+		return x.ops, x.out
+	}
+	cs := make([]string, len(cl))
+	for k := range cl {
+		cs[k] = showChunk(cl[k])
+	}
+	x.ops = append(x.ops, "I"+strings.Join(cs, "+"))
+	if err != nil {
+		x.out = append(x.out, "new:"+c02ErrClass(err))
+		x.fail("c13.iterator.new", err.Error())
+		return x.ops, x.out
+	}
+	var got []int
+	var parts []string
+	for cnt := 0; ; cnt++ {
+		if cnt > len(b.Recs)+50 {
+			x.fail("c13.iterator.no-end", "Next keeps returning true")
+			x.dead = true
+			return x.ops, x.out
+		}
+		var more bool
+		if !x.guarded("Next", func() { more = iter.Next() }) {
+			return x.ops, x.out
+		}
+		if !more {
+			break
+		}
+		i, s := x.recString(iter.Record(), x.br.LastChunk())
+		got = append(got, i)
+		parts = append(parts, s)
+	}
+	ierr := iter.Error()
+	parts = append(parts, c02ErrClass(ierr))
+	x.out = append(x.out, strings.Join(parts, "|"))
+	if !x.guarded("Iterator.Close", func() { iter.Close() }) {
+		return x.ops, x.out
+	}
+	wantErr := error(nil)
+	if cut >= 0 {
+		wantErr = io.ErrUnexpectedEOF
+	}
+	if !sameInts(got, exp) || ierr != wantErr {
+		x.fail("c13.trunc.iterator."+class, fmt.Sprintf("stream cut at %d (%s), chunks %v: records %v error %v, expected records %v error %v", b.Trunc, class, cl, got, ierr, exp, wantErr))
+	}
+	r.eval(fmt.Sprintf("trunc%d|%d", b.id, rd), true)
+	return x.ops, x.out
+}
+
 // ---------------------------------------------------------------------------
 // ChunkReader
 
@@ -872,6 +998,7 @@ func checkC13(c *ctx) {
 	r.Rule = "BAM: header with 0..3 references and 0..14 records (bodies 34..130 bytes, some > 4 KiB) written by bam.Writer, re-cut into blocks by bgzf.Writer " +
 		"at cuts chosen against record ends (on / -1 / +1 / after or inside the next size field / mid-record / header / random), empty blocks spliced in, with and without marker; " +
 		"per (file, rd in 1..3): sequential pass, SetChunk([Begin_i,End_j]) for all i<=j (<= 40 sampled beyond), SetChunk(nil), 3 iterators over 0..5 chunks in any order. " +
+		"Truncated record streams (same number again): the uncompressed stream cut at a record boundary / inside a size field / right after a size field / inside a body; sequential pass, then an iterator over [cut record .. beyond the file, record 0] which must stop at the cut record with io.ErrUnexpectedEOF. " +
 		"A replay case (file, rd, i, j) is non-trivial when i<j or record j ends on/next to a block end; an iterator case when it has >= 2 chunks. " +
 		"ChunkReader: C02-style files (blocks <= 3000 bytes, sometimes one full block), 0..4 ordered non-overlapping chunks with boundaries biased to block ends in any valid offset representation, " +
 		"cyclic buffer-size patterns from {0,1,2,3,7,16,100,1000,4096,65280,70000}, rd 1..3; non-trivial when a chunk spans a block end."
@@ -887,7 +1014,11 @@ func checkC13(c *ctx) {
 				r.note("replay: %v", err)
 				return
 			}
-			runC13Bam(c, in.Bam, in.Rd, append([]string{"replay"}, in.Ops...))
+			if in.Bam.Trunc > 0 {
+				runC13Trunc(c, in.Bam, in.Rd)
+			} else {
+				runC13Bam(c, in.Bam, in.Rd, append([]string{"replay"}, in.Ops...))
+			}
 		case "chunkreader":
 			f := in.File
 			if err := f.build(); err != nil {
@@ -960,6 +1091,53 @@ func checkC13(c *ctx) {
 			if k < 2 && variant == 0 {
 				r.sample(c13Input{Kind: "bam", Bam: b, Rd: rd, Ops: ops})
 			}
+		}
+	}
+	// truncated record streams (audit L-11): the stream ends inside / right after a size field or inside a body
+	for k := 0; k < nBam; k++ {
+		b := genC13Bam(c.rnd)
+		if len(b.Recs) == 0 {
+			b.Recs = append(b.Recs, c13Rec{NameLen: 3, SeqLen: 5, Ref: -1})
+		}
+		var err error
+		if b.flat, err = b.flatStream(); err == nil {
+			err = b.parseFlat()
+		}
+		if err != nil {
+			r.fail("c13.build", err.Error(), c13Input{Kind: "bam", Bam: b})
+			continue
+		}
+		i := c.rnd.intn(len(b.Recs))
+		var t int
+		switch k % 4 {
+		case 0:
+			t = b.recStart[i] + 4
+		case 1:
+			t = b.recStart[i] + c.rnd.rng(1, 3)
+		case 2:
+			t = b.recStart[i] + 4 + c.rnd.rng(1, b.recEnd[i]-b.recStart[i]-5)
+		default:
+			t = b.recStart[i]
+			if i == 0 {
+				t = b.recStart[i] + 4
+			}
+		}
+		b.chooseCuts(c.rnd, r)
+		b.Trunc, b.id = t, 3*nBam+k
+		b.flat = b.flat[:t]
+		if err := b.build(); err != nil {
+			r.fail("c13.build", err.Error(), c13Input{Kind: "bam", Bam: b})
+			continue
+		}
+		hs := make([]string, len(b.hdrReads))
+		for i, h := range b.hdrReads {
+			hs[i] = fmt.Sprint(h)
+		}
+		rd := 1 + k%3
+		ops, out := runC13Trunc(c, b, rd)
+		if ops != nil {
+			li := d.add("c13.bam %s %s %s", b.modelBlocks(), strings.Join(hs, ","), strings.Join(ops, ","))
+			runs = append(runs, run{li, fmt.Sprintf("C13.bam.trunc.rd%d", rd), out})
 		}
 	}
 	for k := 0; k < nCR; k++ {
